@@ -226,4 +226,91 @@ theorem callSeq_reach (fn : CurryFn) (c : Curry) (a : List Int) (hcur : c.cur = 
       (by simp [Curry.advance]))
     exact CReach.step r4 (CStep.advance (by simp [Curry.advance]))
 
+/-! ### scripts: the driver's sequential run against the Spec run -/
+
+theorem curryTok_refines (fn : CurryFn) (c : Curry) (tok : String) (hcur : c.cur = none) :
+    (curryTokImpl fn c tok).1.abs = (curryTokSpec fn c.abs tok).1 ∧
+    (curryTokImpl fn c tok).2 = (curryTokSpec fn c.abs tok).2 ∧
+    (curryTokImpl fn c tok).1.cur = none := by
+  unfold curryTokImpl curryTokSpec
+  by_cases h1 : tok.startsWith "c:" = true
+  · simp only [h1, if_true]
+    obtain ⟨habs, hc⟩ := callSeq_abs fn c (parseInts (dropS tok 2)) hcur
+    refine ⟨habs, ?_, hc⟩
+    have hlog : (c.callSeq fn (parseInts (dropS tok 2))).log = (c.abs.call fn (parseInts (dropS tok 2))).log := by
+      rw [← habs]; rfl
+    rcases Bool.eq_false_or_eq_true c.isDone with hd | hd
+    · have : (c.abs.call fn (parseInts (dropS tok 2))).log = c.log := by simp [Spec.CurryS.call, Curry.abs, hd]
+      simp only [hlog, this]
+      simp [Curry.abs, hd]
+    · have : (c.abs.call fn (parseInts (dropS tok 2))).log = c.log ++ [c.args ++ parseInts (dropS tok 2)] := by
+        simp [Spec.CurryS.call, Curry.abs, hd]
+      simp only [hlog, this]
+      simp [Curry.abs, hd]
+  · simp only [h1]
+    by_cases h2 : tok = "d"
+    · simp [h2, Curry.markDone, Spec.CurryS.markDone, Curry.abs, hcur]
+    · by_cases h3 : tok = "r"
+      · simp [h3, Curry.abs, hcur]
+      · by_cases h4 : tok = "i"
+        · simp [h4, Curry.abs, hcur]
+        · simp [h2, h3, h4, hcur]
+
+theorem curry_script_refines (fn : CurryFn) (ts : List String) :
+    ∀ (c : Curry) (outs : List String), c.cur = none →
+      (ts.foldl (fun (acc : Curry × List String) t =>
+          ((curryTokImpl fn acc.1 t).1, (curryTokImpl fn acc.1 t).2 :: acc.2)) (c, outs)).2 =
+      (ts.foldl (fun (acc : Spec.CurryS × List String) t =>
+          ((curryTokSpec fn acc.1 t).1, (curryTokSpec fn acc.1 t).2 :: acc.2)) (c.abs, outs)).2 := by
+  induction ts with
+  | nil => intro c outs _; rfl
+  | cons t rest ih =>
+    intro c outs hcur
+    obtain ⟨h1, h2, h3⟩ := curryTok_refines fn c t hcur
+    simp only [List.foldl_cons]
+    rw [ih _ _ h3, h1, h2]
+
+/-! ### no Call is lost or duplicated -/
+
+def Curry.pendingCount (c : Curry) : Nat := (c.pending.map List.length).sum
+
+theorem sum_length_set {β : Type} (l : List (List β)) (t : Nat) (a : β) (rest : List β)
+    (h : l[t]? = some (a :: rest)) :
+    ((l.set t rest).map List.length).sum + 1 = (l.map List.length).sum := by
+  induction l generalizing t with
+  | nil => simp at h
+  | cons x xs ih =>
+    cases t with
+    | zero =>
+      simp at h; subst h
+      simp [List.set]; omega
+    | succ j =>
+      simp at h
+      have := ih j h
+      simp only [List.set, List.map_cons, List.sum_cons]; omega
+
+theorem count_step {fn : CurryFn} {c c' : Curry} (st : CStep fn c c') :
+    c'.lockOrder.length + c'.pendingCount = c.lockOrder.length + c.pendingCount := by
+  cases st with
+  | acquire t he =>
+    unfold Curry.acquire at he
+    split at he
+    · rename_i a rest _ hp
+      injection he with he; subst he
+      have := sum_length_set c.pending t a rest hp
+      simp [Curry.pendingCount] at this ⊢; omega
+    · cases he
+  | advance he =>
+    unfold Curry.advance at he
+    split at he
+    · cases he
+    all_goals (injection he with he; subst he; simp [Curry.pendingCount])
+  | markDone => rfl
+
+theorem count_reach {fn : CurryFn} {c c' : Curry} (r : CReach fn c c') :
+    c'.lockOrder.length + c'.pendingCount = c.lockOrder.length + c.pendingCount := by
+  induction r with
+  | refl => rfl
+  | step _ st ih => rw [count_step st, ih]
+
 end FpgoVerif.C20
